@@ -144,6 +144,18 @@ def run_for_rules(rules, jobs=None):
     if entries:
         with ProcessPoolExecutor(max_workers=jobs) as ex:
             results = list(ex.map(_run_entry, entries))
+    # the red-team edits (selftest/adv): each one against the rule it was written for
+    try:
+        from selftest import adv as _adv
+        todo = [(n, r, p_, ()) for n, r, p_ in _adv.entries(set(rules))]
+        if todo:
+            with ProcessPoolExecutor(max_workers=min(16, len(todo))) as ex:
+                for name, rid, st, detail in ex.map(_adv.run_one, todo):
+                    results.append({'id': 'ADV-' + name, 'kind': 'twin', 'rule': rid,
+                                    'status': {'silent': 'silent', 'blind': 'blind', 'stale': 'stale'}.get(st, 'twin-alarm'),
+                                    'detail': detail})
+    except ImportError:
+        pass
     tw = [(name, sorted(rules)) for name in patch_twins()]
     if tw:
         with ProcessPoolExecutor(max_workers=min(16, len(tw))) as ex:
